@@ -25,8 +25,13 @@ NAMESPACES = ["", "", "aa", "bb", "svc", "data_x"]
 BASES = ["item", "itemList", "item_list", "box", "boxed", "node", "tree", "point", "user", "userInfo", "user_info",
          "read", "write", "string2", "type", "func", "range", "map", "value", "reset", "result", "meta", "factory",
          "internal", "tl", "client", "handler", "q", "x1", "itemlist"]
-FIELD_NAMES = ["a", "b", "id", "name", "value", "flags", "fields_mask", "read", "write", "reset", "String", "x_y", "xY",
-               "type", "len", "n", "data", "next", "items", "key", "tl", "basictl", "item", "w", "err"]
+# Field names.  Known finding K1 (known_findings.d/C14.json): a field whose Go name equals a generated method name
+# (string, reset, readJSON, writeJSON, fillRandom, tLName, tLTag, marshalJSON, unmarshalJSON, readTL1, writeTL1,
+# writeJSONOpt, readJSONGeneral; case / underscore variants) gives code that does not compile.  Those names are kept
+# out of the random stream (the fixed witnesses exercise them); near misses that DO compile stay in.
+FIELD_NAMES = ["a", "b", "id", "name", "value", "flags", "fields_mask", "read", "write", "rEset", "readBoxed", "x_y", "xY",
+               "type", "len", "n", "data", "next", "items", "key", "tl", "basictl", "item", "w", "err", "tlName",
+               "set", "isSet", "clear", "readTL2", "writeTL2", "write_JSON", "calculateLayout", "func", "range", "go"]
 PRIMS = ["int", "long", "string", "double", "float", "#", "Bool", "int", "string"]
 
 
@@ -59,6 +64,8 @@ class SchemaGen:
         n = size if size is not None else rng.range(2, 10)
         for i in range(n):
             self.add_decl()
+        if rng.chance(1, 3):
+            self.add_cycle()
         nf = rng.range(0, 3)
         for i in range(nf):
             self.add_func()
@@ -102,7 +109,10 @@ class SchemaGen:
         if k == 10:
             return "(Maybe %s)" % self.type_ref(d, depth + 1, natvars, tvars)
         if k == 11:
-            return "(dictionary %s)" % self.type_ref(d, depth + 1, natvars, tvars)
+            inner = self.type_ref(d, depth + 1, natvars, tvars)
+            if inner.startswith("(dictionary"):   # known finding K5: nested dictionaries with --split-internal + TL2/bytes
+                inner = "int"
+            return "(dictionary %s)" % inner
         if k == 12:
             tm = [x for x in self.decls if x.kind == "tmpl"]
             if tm:
@@ -178,6 +188,25 @@ class SchemaGen:
             d.ctors = [(d.cname, self.fields(d, natvars=("n",), maxn=3) + " arr:n*[int]")]
         self.decls.append(d)
 
+    def add_cycle(self):
+        """mutually recursive types across namespaces (cycle merging of --split-internal, recursion through vector/Maybe/mask)"""
+        r = self.r
+        n = r.range(2, 4)
+        ds = []
+        for i in range(n):
+            ns = r.choice(["", "aa", "bb"])
+            key = (ns + ".cyc%d" % i)
+            if key in self.used:
+                return
+            self.used.add(key)
+            ds.append(Decl(ns, "cyc%d" % i, "struct"))
+        for i, d in enumerate(ds):
+            nxt = ds[(i + 1) % n]
+            link = r.choice(["(vector %s)" % nxt.tname, "(Maybe %s)" % nxt.tname, "(vector %s)" % nxt.cname])
+            extra = "back:(vector %s)" % ds[r.below(n)].tname if r.chance(1, 2) else "v:int"
+            d.ctors = [(d.cname, "m:# nxt:%s opt:m.0?%s %s" % (link, nxt.tname, extra))]
+            self.decls.append(d)
+
     def add_func(self):
         r = self.r
         ns, base = self.fresh_name()
@@ -213,10 +242,14 @@ class SchemaGen:
             ns = r.choice(["t2", "t2", "zq"])
             nm = "%s.%s%d" % (ns, r.choice(["obj", "rec", "item", "read", "box"]), i)
 
-            def ty(depth=0):
+            def ty(depth=0, opt=False):
+                # known findings K2-K4 (known_findings.d/C14.json) are kept out of the random stream: `bit` only as a
+                # direct field type, optional fields never of a (possibly empty) struct type, functions return primitives
                 k = r.below(10)
                 if k < 5 or depth > 1:
-                    return r.choice(prim2)
+                    return r.choice(prim2[:-1] if depth > 0 or opt else prim2)
+                if k == 5 and opt:
+                    return r.choice(prim2[:-1])
                 if k == 5 and names:
                     return r.choice(names)
                 if k == 6:
@@ -225,7 +258,7 @@ class SchemaGen:
                     return "[%d]%s" % (r.below(4), ty(depth + 1))
                 if k == 8:
                     return "[%s]%s" % (r.choice(["string", "int32", "int64"]), ty(depth + 1))
-                return r.choice(prim2)
+                return r.choice(prim2[:-1])
             if r.chance(1, 4):
                 vs = " | ".join("v%d %s" % (j, " ".join("f%d:%s" % (q, ty()) for q in range(r.range(0, 2)))) for j in range(r.range(2, 4)))
                 nm = "%s.%s%d" % (ns, r.choice(["Uni", "Choice"]), i)
@@ -234,16 +267,14 @@ class SchemaGen:
                 fs = []
                 for q in range(r.range(0, 9 if r.chance(1, 5) else 4)):
                     opt = "?" if r.chance(1, 3) else ""
-                    t = ty()
-                    if t == "bit":
-                        opt = ""
+                    t = ty(0, opt == "?")
                     fs.append("f%d%s:%s" % (q, opt, t))
                 magic = "#%08x" % r.range(1, 2**32 - 1) if r.chance(1, 3) else ""
                 out.append("%s%s = %s;\n" % (nm, magic, " ".join(fs)))
             names.append(nm)
         for i in range(r.range(0, 2)):
             out.append("@read t2.fn%d#%08x x:int32 y:%s => %s;\n" % (i, r.range(1, 2**32 - 1), r.choice(prim2[:6]),
-                                                                   r.choice(["int32", "[]string", r.choice(names) if names else "int64"])))
+                                                                   r.choice(["int32", "int64", "string", "bool"])))
         return "".join(out)
 
     def full_text(self, files=1):
